@@ -341,7 +341,7 @@ func resolveComputedFields(env *Environment, errorSink *validation.ErrorSink) *E
 						for argIndex, arg := range t.Arguments {
 							found := false
 							for dimIndex, dim := range *d.Dimensions {
-								if *dim.Name == arg.Label {
+								if dim.Name != nil && *dim.Name == arg.Label {
 									found = true
 									if orderedArguments[dimIndex] != nil {
 										errorSink.Add(validationError(arg.Value, "array index has multiple arguments for dimension '%s'", *dim.Name))
